@@ -590,6 +590,13 @@ def grad_kernel(S, which, n1, n2, d, ard=False, power=2):
     with S.mode():
         p = read_params(k)
         out = S.must_not_raise("%s(x1,x2) with n1=%d,n2=%d" % (which, n1, n2), lambda: dense(k(x1, x2)))
+        dg = full_sq = None
+        if which != "matern52_grad":
+            # diag=True (its own hand-written branch) = the diagonal of the full matrix on the same inputs, in the same interleaved layout
+            dg = S.must_not_raise("%s(x1, x1, diag=True)" % which, lambda: k(x1, x1, diag=True))
+            full_sq = as_sym_arr(SH.get(dense(k(x1, x1)))).copy()
+    if dg is not None:
+        S.prove_eq(dg, np.diagonal(full_sq), "%s diag=True = diagonal of the full matrix (n=%d, d=%d, ARD=%s)" % (which, n1, d, ard))
     if which == "matern52_grad":
         # the reference differentiates the documented function away from the distance guard: distinct points
         # (coincident points are the r=0 limit of the Matern-5/2 derivatives; outside this scenario's claim)
